@@ -340,6 +340,29 @@ Example C18_example_mkdir_all :
   (dget (b "/home") s', dget (b "/home/.docker") s', dget (b "/home/.docker/sub") s') = (Some 493, Some 448, Some 448).
 Proof. vm_compute. reflexivity. Qed.
 
+(* on plain host addresses (ToHostname a = a: no scheme, no path) the FileStore
+   answers every history exactly like the in-memory Store of memory_store.go (a
+   map; [mem_step] with the colon rule): starting from a store that corresponds to
+   a map -- in particular from a missing config file and the empty map *)
+Theorem C18_refines_memory_store :
+  forall (enc : str -> str) (dec : str -> option str) (ok : str -> Prop),
+    (forall s, ok s -> dec (enc s) = Some s) -> (forall s, enc s = [] -> s = []) ->
+    forall h st m,
+      sim enc ok st m -> Forall (good_op ok) h ->
+      map fst (run_obs enc dec st h) = mem_results m h.
+Proof. exact refines_memory_store. Qed.
+Print Assumptions C18_refines_memory_store.
+
+Theorem C18_refines_memory_store_fresh :
+  forall h, Forall (good_op bytes) h ->
+    map fst (run_obs b64_encode b64_decode {| st_mem := empty_mem; st_file := None |} h) = mem_results [] h.
+Proof.
+  intros h F.
+  exact (refines_memory_store b64_encode b64_decode bytes b64_roundtrip b64_encode_nonempty h _ []
+           (sim_empty b64_encode bytes None) F).
+Qed.
+Print Assumptions C18_refines_memory_store_fresh.
+
 (* the defect this check found (fixed on the repository branch): before the fix
    a config file holding the JSON value null made the first save panic *)
 Theorem C18_null_document_refuted :
